@@ -51,32 +51,69 @@ struct Start {
     what: &'static str,
     store: ColumnStore,
     /// contents of the prefilled store: (row, key index) -> normalised value
-    base: BTreeMap<(usize, u8), String>,
+    base: BTreeMap<(usize, u8), PropertyValue>,
     /// rows of the alphabet, with their role
     rows: Vec<(&'static str, usize)>,
     /// every row that is read after every step (alphabet rows and their neighbours)
     near: Vec<usize>,
     /// every row read after a step that changed a representation (all prefilled rows + near)
     all: Vec<usize>,
+    /// prefilled rows outside `near`, with their (constant) reference values per key
+    far_rows: Vec<(usize, [Option<PropertyValue>; 2])>,
+    /// number of prefilled rows per key
+    base_count: [i64; 2],
 }
 
 #[derive(Clone)]
 struct St {
     cs: ColumnStore,
     /// reference: overlay on `base` for the alphabet rows; None = absent
-    ov: BTreeMap<(usize, u8), Option<String>>,
+    ov: BTreeMap<(usize, u8), Option<u8>>,
 }
 
 struct M {
     start: Start,
     full_sweep_always: bool,
+    vals: Vec<PropertyValue>,
+    /// indices into `start.rows` that the alphabet uses in this pass
+    active: Vec<u8>,
 }
 
+/// Rows of the deeper passes, most important first (the boundary row whose write changes the
+/// representation, the far-away row, then two more); a pass over k rows uses the first k.
+fn deep_rows(start: &str) -> Vec<&'static str> {
+    match start {
+        "empty" => vec!["r0", "far", "r1", "r7"],
+        "sparse1023" => vec!["last+1", "far", "hole", "first", "last"],
+        "dense1024@0" => vec!["last+1", "far", "last", "first", "inside"],
+        "dense2048@10" => vec!["below-1", "far", "last+1", "first", "below-0"],
+        "breakeven" => vec!["last+1", "far", "first", "below", "hole"],
+        "demoted2047" => vec!["far", "last+1", "first", "far2", "below"],
+        "string+bool" => vec!["last+1-a", "far", "last+1-b", "below-a", "absent-b"],
+        "float+other" => vec!["last+1", "far", "below", "first", "inside"],
+        _ => vec!["last+1", "far", "gap", "first", "inside"],
+    }
+}
+
+/// Logical equality of two stored values (floats by bits, containers element-wise).
+fn same(a: &PropertyValue, b: &PropertyValue) -> bool {
+    match (a, b) {
+        (PropertyValue::Null, PropertyValue::Null) => true,
+        (PropertyValue::Integer(x), PropertyValue::Integer(y)) => x == y,
+        (PropertyValue::Float(x), PropertyValue::Float(y)) => x.to_bits() == y.to_bits(),
+        (PropertyValue::String(x), PropertyValue::String(y)) => x == y,
+        (PropertyValue::Boolean(x), PropertyValue::Boolean(y)) => x == y,
+        (PropertyValue::Array(x), PropertyValue::Array(y)) => x.len() == y.len() && x.iter().zip(y).all(|(p, q)| same(p, q)),
+        _ => false,
+    }
+}
+const NULL: PropertyValue = PropertyValue::Null;
+
 impl M {
-    fn ref_get(&self, st: &St, row: usize, k: u8) -> Option<String> {
+    fn ref_get<'a>(&'a self, st: &St, row: usize, k: u8) -> Option<&'a PropertyValue> {
         match st.ov.get(&(row, k)) {
-            Some(v) => v.clone(),
-            None => self.start.base.get(&(row, k)).cloned(),
+            Some(v) => v.map(|i| &self.vals[i as usize]),
+            None => self.start.base.get(&(row, k)),
         }
     }
 }
@@ -107,14 +144,20 @@ fn reprs(cs: &ColumnStore) -> [String; 2] {
 
 /// What kind of representation change a step caused (outcome label; also decides the full sweep).
 fn classify(before: &[String; 2], after: &[String; 2]) -> String {
-    let mut out = vec![];
-    for i in 0..2 {
-        let (b, a) = (&before[i], &after[i]);
+    let out: Vec<String> = (0..2).map(|i| classify_one(&before[i], &after[i])).filter(|c| c != "same").collect();
+    if out.is_empty() {
+        "same".into()
+    } else {
+        out.join("+")
+    }
+}
+fn classify_one(b: &String, a: &String) -> String {
+    {
         if b == a {
-            continue;
+            return "same".into();
         }
         let (bk, ak) = (repr_kind(b), repr_kind(a));
-        let lab = if bk == "none" {
+        if bk == "none" {
             "new-column".to_string()
         } else if bk == ak {
             if ak.ends_with("dense") {
@@ -135,39 +178,32 @@ fn classify(before: &[String; 2], after: &[String; 2]) -> String {
             "promote".to_string()
         } else {
             "demote".to_string()
-        };
-        out.push(lab);
-    }
-    if out.is_empty() {
-        "same".into()
-    } else {
-        out.join("+")
+        }
     }
 }
 
 impl Model for M {
     type Op = Op;
     type State = St;
-    type Key = String;
+    type Key = (u64, u64);
     fn init(&self) -> St {
         St { cs: self.start.store.clone(), ov: BTreeMap::new() }
     }
     fn ops(&self, _st: &St) -> Vec<Op> {
-        let n = self.start.rows.len() as u8;
         let mut v = vec![];
-        for r in 0..n {
+        for &r in &self.active {
             for k in 0..2 {
                 for x in 0..NVALS {
                     v.push(Op::Set(r, k, x));
                 }
             }
         }
-        for r in 0..n {
+        for &r in &self.active {
             for k in 0..2 {
                 v.push(Op::Remove(r, k));
             }
         }
-        for r in 0..n {
+        for &r in &self.active {
             v.push(Op::Clear(r));
         }
         v
@@ -179,7 +215,7 @@ impl Model for M {
         let res = match op {
             Op::Set(r, k, x) => {
                 let row = rows[*r as usize].1;
-                st.ov.insert((row, *k), Some(norm(&val(*x))));
+                st.ov.insert((row, *k), Some(*x));
                 let cs = &mut st.cs;
                 guarded(|| cs.set_property(row, KEYS[*k as usize], val(*x)))
             }
@@ -207,30 +243,54 @@ impl Model for M {
         if check {
             let after = reprs(&st.cs);
             outcome = classify(before.as_ref().unwrap(), &after);
-            let full = self.full_sweep_always || outcome != "same";
-            let rows: &Vec<usize> = if full { &self.start.all } else { &self.start.near };
-            let r = guarded(|| self.compare(st, rows, &mut vio));
+            let after_ref = &after;
+            let before_ref = before.as_ref().unwrap();
+            let full_api = self.full_sweep_always;
+            let r = guarded(|| {
+                self.compare(st, if full_api { &self.start.all } else { &self.start.near }, &mut vio);
+                // a column whose variant / sparse-dense state / base / span changed: re-read every prefilled row of it
+                for k in 0..2usize {
+                    let c = classify_one(&before_ref[k], &after_ref[k]);
+                    if c != "same" && c != "count" {
+                        self.sweep_far(st, k, &mut vio);
+                    }
+                }
+            });
             if let Err(p) = r {
                 vio.push(("panic:read".into(), format!("a read panicked after {op:?}: {p}")));
             }
         }
         Step { violations: vio, outcome }
     }
-    fn key(&self, st: &St) -> String {
+    fn key(&self, st: &St) -> (u64, u64) {
         // reference contents of the alphabet rows (everything else is constant = `base`)
         // + per-column representation (variant, sparse/dense, base, span, entries)
         let mut s = String::new();
         for (_, row) in &self.start.rows {
             for k in 0..2u8 {
-                s.push_str(self.ref_get(st, *row, k).as_deref().unwrap_or("-"));
-                s.push('|');
+                // value index if the cell holds one of the alphabet's values, '-' if absent, 'B' = untouched prefill value
+                let c = match self.ref_get(st, *row, k) {
+                    None => '-',
+                    Some(v) => match self.vals.iter().position(|x| same(x, v)) {
+                        Some(i) => (b'0' + i as u8) as char,
+                        None => 'B',
+                    },
+                };
+                s.push(c);
             }
         }
+        s.push('|');
         let r = reprs(&st.cs);
         s.push_str(&r[0]);
         s.push('|');
         s.push_str(&r[1]);
-        s
+        // 128-bit digest of the canonical text (keeps the visited set small at depth 4)
+        use std::hash::{Hash, Hasher};
+        let mut h1 = std::collections::hash_map::DefaultHasher::new();
+        s.hash(&mut h1);
+        let mut h2 = std::collections::hash_map::DefaultHasher::new();
+        (0x9E3779B97F4A7C15u64, &s, s.len()).hash(&mut h2);
+        (h1.finish(), h2.finish())
     }
 }
 
@@ -246,22 +306,23 @@ impl M {
                 if want.is_some() {
                     want_keys.insert(KEYS[k as usize]);
                 }
-                let want_s = want.unwrap_or_else(|| "null".into());
-                let got = norm(&cs.get_property(row, KEYS[k as usize]));
-                if got != want_s {
-                    vio.push(("get_property".into(), format!("get_property(row {row} [{}], {}) = {got}, map says {want_s}", role(row), KEYS[k as usize])));
+                let present = want.is_some();
+                let want = want.unwrap_or(&NULL);
+                let got = cs.get_property(row, KEYS[k as usize]);
+                if !same(&got, want) {
+                    vio.push(("get_property".into(), format!("get_property(row {row} [{}], {}) = {}, map says {}", role(row), KEYS[k as usize], norm(&got), norm(want))));
                 }
                 let got2 = match ids[k as usize] {
-                    Some(id) => norm(&cs.get_by_id(id, row)),
-                    None => "null".into(),
+                    Some(id) => cs.get_by_id(id, row),
+                    None => PropertyValue::Null,
                 };
-                if got2 != want_s {
-                    vio.push(("get_by_id".into(), format!("get_by_id(column {}, row {row} [{}]) = {got2}, map says {want_s}", KEYS[k as usize], role(row))));
+                if !same(&got2, want) {
+                    vio.push(("get_by_id".into(), format!("get_by_id(column {}, row {row} [{}]) = {}, map says {}", KEYS[k as usize], role(row), norm(&got2), norm(want))));
                 }
                 if let Some(col) = cs.get_column(KEYS[k as usize]) {
                     let h = col.has(row);
-                    if h != (want_s != "null") {
-                        vio.push(("column_has".into(), format!("Column::has(row {row} [{}]) of {} = {h}, map says {want_s}", role(row), KEYS[k as usize])));
+                    if h != present {
+                        vio.push(("column_has".into(), format!("Column::has(row {row} [{}]) of {} = {h}, map says {}", role(row), KEYS[k as usize], norm(want))));
                     }
                 }
             }
@@ -274,7 +335,7 @@ impl M {
         // entry counts: Column::len must equal the number of rows holding a value
         for k in 0..2u8 {
             if let Some(col) = cs.get_column(KEYS[k as usize]) {
-                let mut n = self.start.base.keys().filter(|(_, kk)| *kk == k).count() as i64;
+                let mut n = self.start.base_count[k as usize];
                 for ((row, kk), v) in &st.ov {
                     if *kk != k {
                         continue;
@@ -294,10 +355,35 @@ impl M {
     }
 }
 
+impl M {
+    /// Re-read every prefilled row outside the alphabet's neighbourhood for one column
+    /// (their reference values never change) directly through `Column::get` / `has`.
+    fn sweep_far(&self, st: &St, k: usize, vio: &mut Vec<(String, String)>) {
+        let Some(col) = st.cs.get_column(KEYS[k]) else {
+            if self.start.base_count[k] > 0 {
+                vio.push(("get_property".into(), format!("column {} vanished", KEYS[k])));
+            }
+            return;
+        };
+        for (row, vals) in &self.start.far_rows {
+            let got = col.get(*row);
+            let want = vals[k].as_ref().unwrap_or(&NULL);
+            if !same(&got, want) {
+                vio.push(("get_property".into(), format!("after a representation change, row {row} [prefilled, never written by the history] of {} reads {}, map says {}", KEYS[k], norm(&got), norm(want))));
+                return;
+            }
+            if col.has(*row) != vals[k].is_some() {
+                vio.push(("column_has".into(), format!("after a representation change, Column::has(row {row}) of {} = {}, map says {}", KEYS[k], col.has(*row), norm(want))));
+                return;
+            }
+        }
+    }
+}
+
 // ---------------------------------------------------------------------------------------------
 // start states
 
-fn build(name: &'static str, what: &'static str, fill: impl FnOnce(&mut ColumnStore, &mut BTreeMap<(usize, u8), String>), rows: Vec<(&'static str, usize)>) -> Start {
+fn build(name: &'static str, what: &'static str, fill: impl FnOnce(&mut ColumnStore, &mut BTreeMap<(usize, u8), PropertyValue>), rows: Vec<(&'static str, usize)>) -> Start {
     let mut cs = ColumnStore::new();
     let mut base = BTreeMap::new();
     fill(&mut cs, &mut base);
@@ -313,14 +399,16 @@ fn build(name: &'static str, what: &'static str, fill: impl FnOnce(&mut ColumnSt
     for (r, _) in base.keys() {
         all.insert(*r);
     }
-    Start { name, what, store: cs, base, rows, near: near.into_iter().collect(), all: all.into_iter().collect() }
+    let far_rows = all.iter().filter(|r| !near.contains(r)).map(|r| (*r, [base.get(&(*r, 0)).cloned(), base.get(&(*r, 1)).cloned()])).collect();
+    let base_count = [base.keys().filter(|(_, k)| *k == 0).count() as i64, base.keys().filter(|(_, k)| *k == 1).count() as i64];
+    Start { name, what, store: cs, base, rows, near: near.into_iter().collect(), all: all.into_iter().collect(), far_rows, base_count }
 }
 
-fn put(cs: &mut ColumnStore, base: &mut BTreeMap<(usize, u8), String>, row: usize, k: u8, v: PropertyValue) {
-    base.insert((row, k), norm(&v));
+fn put(cs: &mut ColumnStore, base: &mut BTreeMap<(usize, u8), PropertyValue>, row: usize, k: u8, v: PropertyValue) {
+    base.insert((row, k), v.clone());
     cs.set_property(row, KEYS[k as usize], v);
 }
-fn del(cs: &mut ColumnStore, base: &mut BTreeMap<(usize, u8), String>, row: usize, k: u8) {
+fn del(cs: &mut ColumnStore, base: &mut BTreeMap<(usize, u8), PropertyValue>, row: usize, k: u8) {
     base.remove(&(row, k));
     cs.remove_property(row, KEYS[k as usize]);
 }
@@ -477,45 +565,58 @@ fn op_text(m: &M, op: &Op) -> String {
 
 fn main() {
     run_check("C30", Level::ModelChecking, |ctx| {
-        let depth = ctx.tier.pick(3, 4);
         let all_starts = starts();
         if let Some(p) = &ctx.replay {
             replay(ctx, all_starts, p);
             return;
         }
+        // passes: (depth, deep rows only?)
+        // passes: (depth, number of rows in the alphabet; 0 = all rows of the start)
+        let passes: Vec<(usize, usize)> = if ctx.quick() { vec![(3, 5), (8, 2)] } else { vec![(3, 0), (4, 4), (5, 3), (12, 2)] };
         let mut total = Stats::default();
         let mut per_start = vec![];
         let mut repr_changes: BTreeMap<String, u64> = BTreeMap::new();
-        for start in all_starts {
-            // sanity of the start itself (prefill vs map), full sweep
-            let m = M { start, full_sweep_always: false };
-            let st0 = m.init();
-            let mut vio = vec![];
-            m.compare(&st0, &m.start.all, &mut vio);
-            for (sig, msg) in vio {
-                ctx.violation(&format!("{sig}@prefill"), msg, json!({"start": m.start.name, "history": []}));
-            }
-            let t0 = std::time::Instant::now();
-            let stats = hx::explore(&m, depth, 30_000_000, |v| {
-                ctx.violation(
-                    &v.sig,
-                    v.msg,
-                    json!({"start": m.start.name, "history": v.history.iter().map(|o| format!("{:?}", o)).collect::<Vec<_>>(), "readable": v.history.iter().map(|o| op_text(&m, o)).collect::<Vec<_>>()}),
-                );
-            });
-            for m2 in stats.outcomes_per_op.values() {
-                for (k, n) in m2 {
-                    if k != "same" {
-                        *repr_changes.entry(k.clone()).or_default() += n;
+        for (depth, nrows) in passes {
+            for start in starts() {
+                let active: Vec<u8> = if nrows > 0 {
+                    let all_names = deep_rows(start.name);
+                    let names = &all_names[..nrows.min(all_names.len())];
+                    names.iter().map(|n| start.rows.iter().position(|(x, _)| x == n).expect("deep row name") as u8).collect()
+                } else {
+                    (0..start.rows.len() as u8).collect()
+                };
+                let m = M { start, full_sweep_always: false, vals: (0..NVALS).map(val).collect(), active };
+                // sanity of the start itself (prefill vs map), full sweep
+                let st0 = m.init();
+                let mut vio = vec![];
+                m.compare(&st0, &m.start.all, &mut vio);
+                for (sig, msg) in vio {
+                    ctx.violation(&format!("{sig}@prefill"), msg, json!({"start": m.start.name, "history": []}));
+                }
+                let t0 = std::time::Instant::now();
+                let stats = hx::explore(&m, depth, 30_000_000, |v| {
+                    ctx.violation(
+                        &v.sig,
+                        v.msg,
+                        json!({"start": m.start.name, "history": v.history.iter().map(|o| format!("{:?}", o)).collect::<Vec<_>>(), "readable": v.history.iter().map(|o| op_text(&m, o)).collect::<Vec<_>>()}),
+                    );
+                });
+                for m2 in stats.outcomes_per_op.values() {
+                    for (k, n) in m2 {
+                        if k != "same" {
+                            *repr_changes.entry(k.clone()).or_default() += n;
+                        }
                     }
                 }
+                per_start.push(json!({"start": m.start.name, "what": m.start.what, "initial_repr": reprs(&m.start.store), "depth": depth,
+                    "rows": m.active.iter().map(|i| format!("{}={}", m.start.rows[*i as usize].0, m.start.rows[*i as usize].1)).collect::<Vec<_>>(),
+                    "alphabet_size": m.ops(&st0).len(),
+                    "states": stats.states, "transitions": stats.transitions, "max_depth": stats.max_depth, "cap_hit": stats.cap_hit, "wall_s": t0.elapsed().as_secs_f64()}));
+                if let Some(s) = stats.samples.last() {
+                    total.samples.push(json!({"start": m.start.name, "depth": depth, "sample": s}));
+                }
+                merge(&mut total, &stats);
             }
-            per_start.push(json!({"start": m.start.name, "what": m.start.what, "initial_repr": reprs(&m.start.store), "rows": m.start.rows.iter().map(|(n, r)| format!("{n}={r}")).collect::<Vec<_>>(),
-                "states": stats.states, "transitions": stats.transitions, "max_depth": stats.max_depth, "cap_hit": stats.cap_hit, "wall_s": t0.elapsed().as_secs_f64()}));
-            if let Some(s) = stats.samples.last() {
-                total.samples.push(json!({"start": m.start.name, "sample": s}));
-            }
-            merge(&mut total, &stats);
         }
         hx::report(
             ctx,
@@ -524,10 +625,11 @@ fn main() {
         );
         ctx.cov("starts", json!(per_start));
         ctx.cov("representation_changes_exercised", json!(repr_changes));
-        ctx.cov("depth_from_each_start", depth as u64);
+        ctx.cov("passes", if ctx.quick() { "from each start: depth 3 over 5 of its rows; depth 8 (fixpoint) over the 2 rows that drive representation changes (separate visited sets; states/transitions are summed over passes)" } else { "from each start: depth 3 over all its rows; depth 4 over 4 rows; depth 5 over 3 rows; depth 12 (fixpoint) over 2 rows (rows that drive representation changes first; separate visited sets; states/transitions are summed over passes)" });
         ctx.assume("PropertyValue::Null as a *set* value is not in the alphabet: whether it stores a null or removes the key is not fixed by the property");
         ctx.assume("get_property_keys is compared as a set (plus: no duplicates); key order is column creation order and not part of the property");
-        ctx.assume("after a step that changes no representation only the alphabet rows and their +-1 neighbours are re-read; after a step that changes a column's variant/base/span/sparse-dense state every prefilled row (1023..2048 per column) is re-read");
+        ctx.assume("after every step the alphabet rows and their +-1 neighbours are re-read through the whole read API (get_property, get_by_id, Column::has, get_property_keys, Column::len); after a step that changes a column's variant / sparse-dense state / base / span every prefilled row of that column (1023..2048 rows) is re-read as well");
+        ctx.assume("the visited set stores a 128-bit digest (two independent SipHash-64) of the canonical key text");
         ctx.assume("dedup key = reference contents of the alphabet rows + per column (variant, sparse|dense, base, span, entries); all other rows are constant in the reference and verified by the sweeps");
     });
 }
@@ -537,7 +639,7 @@ fn replay(ctx: &svmc::Ctx, starts: Vec<Start>, p: &std::path::Path) {
     let name = doc["witness"]["start"].as_str().unwrap_or("").to_string();
     let hist: Vec<String> = doc["witness"]["history"].as_array().map(|a| a.iter().map(|s| s.as_str().unwrap().to_string()).collect()).unwrap_or_default();
     let start = starts.into_iter().find(|s| s.name == name).unwrap_or_else(|| ctx.machinery(&format!("replay: unknown start {name}")));
-    let m = M { start, full_sweep_always: true };
+    let m = M { active: (0..start.rows.len() as u8).collect(), start, full_sweep_always: true, vals: (0..NVALS).map(val).collect() };
     let mut st = m.init();
     println!("start {}: {} repr={:?}", m.start.name, m.start.what, reprs(&st.cs));
     for (i, want) in hist.iter().enumerate() {
